@@ -24,6 +24,7 @@ LEVEL_TEXT = (
     " Every store of the sampler line-up takes a private copy (a caller's list mutated later would renumber labels), and the scheduler pickle is written before the labels that refer to it."
     ' Included: one label per recorded sample needs sample() to return exactly batch_size rows (C12 shape rules), and the results table is rewritten whole on every save, never appended to (C04-R4b).'
     ' Included: the commit-region rule of C02 (a batch is labelled together with its samples, after the user code ran) and the field-plumbing rule of C04 restricted to the per-sample records (after a restore label i still belongs to sample i).'
+    " The module-state rule of C05 kept to calibrator.py is included (an id table handed out by a cache and mutated later is shared between calibrators); the update-on-replace rule reads the argument through once-bound locals and tuple()/list() snapshots."
 )
 TECHNIQUE = "guarded-store / monotonicity rule on the id table + persisted-domain membership + pickle channel typing across writer and reader"
 
